@@ -219,7 +219,7 @@ def cases():
             lw = [base + draw(st.sampled_from([0.0, 1e-6, -1e-6, 1e-5])) for _ in range(N)]
         elif kind == "mild":  # within about +-10% of 1/N: a well-balanced but not uniform collection (ESS close to N)
             base = draw(st.floats(-3, 3, allow_nan=False, width=32))
-            lw = [base + draw(st.floats(-0.1, 0.1, allow_nan=False, width=32)) for _ in range(N)]
+            lw = [base + draw(st.floats(-0.09375, 0.09375, allow_nan=False, width=32)) for _ in range(N)]
         elif kind == "wide":
             lw = [draw(st.floats(-30, 30, allow_nan=False, width=32)) for _ in range(N)]
         else:
